@@ -8,7 +8,7 @@
    Times are fifths of a tick. *)
 From Coq Require Import List Arith Bool NArith.
 Import ListNotations.
-Require Import Aiuti.CaseLib Aiuti.Keys Aiuti.Case_C14 Aiuti.Options.
+Require Import Aiuti.CaseLib Aiuti.Keys Aiuti.Case_C14 Aiuti.Options Aiuti.OptionsRef.
 
 Inductive lev := LSeg (l : nat) (script : list bev) | LClose (l : nat).
 
@@ -44,6 +44,21 @@ Definition flatten (plan : list lev) : list (pev bev) :=
 Definition loops_model (cfg : ocfg) (plan : list lev) : reg bst :=
   prun bst bev binit (bstep (resolve cfg)) (flatten plan).
 
+(* the part of the plan that is addressed to loop l *)
+Definition script_on (l : nat) (plan : list lev) : list bev :=
+  flat_map (fun s => match s with
+                     | LSeg l' sc => if Nat.eqb l l' then sc else []
+                     | LClose _ => [] end) plan.
+
+(* the small reference semantics against the FULL component models (Batcher.v / Buffer.v run on the
+   translated script, OptionsRef.v): evaluated on every buffer / batcher / loops case, so the two
+   semantics are compared on every script of every run (proved in general for the buffer and for
+   a sub-class of batcher configurations, props/C15.v) *)
+Definition ref_buffer_agree (T : N) (sc : list bufev) : bool :=
+  flushes_eqb (buf_run T sc 0%N None) (full_flushes T sc).
+Definition ref_batcher_agree (c : bcfg) (sc : list bev) : bool :=
+  let '(ft, odd) := full_trace c sc in btrace_eqb (trace_of (brun c sc)) ft && negb odd.
+
 (* ---- agree: reference semantics = implementation, in every form ---------- *)
 Definition agree (c : case) : bool :=
   match c with
@@ -54,10 +69,12 @@ Definition agree (c : case) : bool :=
       Case_C14.agree (C14 KDefault false evs1 d1) && Case_C14.agree (C14 KDefault false evs1 e1)
   | CBuffer t sc d1 d2 d3 =>
       let m := buf_trace t sc in
-      flushes_eqb m d1 && flushes_eqb m d2 && flushes_eqb m d3
+      flushes_eqb m d1 && flushes_eqb m d2 && flushes_eqb m d3 &&
+      ref_buffer_agree (match t with Some v => v | None => buf_default_timeout end) sc
   | CBatcher cfg sc d1 d2 d3 cross =>
       let m := trace_of (brun (resolve cfg) sc) in
-      btrace_eqb m d1 && btrace_eqb m d2 && btrace_eqb m d3 && Nat.eqb cross 0
+      btrace_eqb m d1 && btrace_eqb m d2 && btrace_eqb m d3 && Nat.eqb cross 0 &&
+      ref_batcher_agree (resolve cfg) sc
   | CLoops cfg plan observed solo cross =>
       let r := loops_model cfg plan in
       forallb (fun lt => match final_of bst (fst lt) r with
@@ -65,6 +82,7 @@ Definition agree (c : case) : bool :=
                          | None => false end) observed
       && Nat.eqb (length observed) (length (live r) + length (archive r))
       && Nat.eqb cross 0
+      && forallb (fun lt => ref_batcher_agree (resolve cfg) (script_on (fst lt) plan)) observed
   end.
 
 (* ---- monitor: decided on the observed traces ----------------------------- *)
@@ -98,9 +116,14 @@ Fixpoint call_keys (sc : list bev) : list nat :=
 
 (* what can be said of ONE batcher's trace from the script alone: batch sizes
    respect max_batch_size, batches only contain keys that were submitted, every
-   answered caller got the result of a batch that contains its key *)
+   answered caller got the result of a batch that contains its key.
+   The size bound is max 1 max_batch_size: with max_batch_size = 0 the library (and the
+   reference semantics) hands over every item alone — `tasks = [await q.get()]` comes before
+   the `while len(tasks) < self.max_batch_size` test (asyncio.py, _get_next_batch); the bound
+   "<= max_batch_size" rejected those correct traces (found by proving OptionsMon.batcher_complete;
+   for max_batch_size >= 1 nothing changes). *)
 Definition batcher_sane (c : bcfg) (keys : list nat) (tr : btrace) : bool :=
-  forallb (fun st => (length (snd st) <=? cB c) && nsubset (snd st) keys &&
+  forallb (fun st => (length (snd st) <=? Nat.max 1 (cB c)) && nsubset (snd st) keys &&
                      match snd st with [] => false | _ => true end) (fst tr) &&
   Nat.eqb (length (snd tr)) (length keys) &&
   forallb (fun kd => match snd kd with
